@@ -143,8 +143,18 @@ package scanner
 //@ func (*Lexer).error
 //@   requires lex != nil && sorted(lex.newLines.data) && len(msg) > 0
 //@   ensures lex.errHandlerFunc == nil ==> cbcount() == old(cbcount())
-//@   ensures lex.errHandlerFunc != nil ==> (cbcount() == old(cbcount()) + 1 && fresh(cbarg()) && cberr(cbarg(), msg, lex.ts, lex.te))
+//@   ensures lex.errHandlerFunc != nil ==> (cbcount() == old(cbcount()) + 1 && fresh(cbarg()) && cberr(aserror(cbarg()), msg, lex))
 //@   modifies nothing
 //@   props C01, C06
 
-//@ pred cberr(e, msg, ts, te) := e != 0
+// C06: a lexer error carries the message, the offsets of the offending text (the scanner window
+// ts..te) and the lines of those offsets.
+//@ pred cberr(e, msg, lex) := e != nil && e.Msg == msg && e.Pos != nil && e.Pos.StartPos == lex.ts && e.Pos.EndPos == lex.te && isline(lex.newLines.data, lex.ts, e.Pos.StartLine) && isline(lex.newLines.data, lex.te - 1, e.Pos.EndLine)
+
+// The generated scanner machine. Its body is covered by the scanner obligations (E-SCAN) where
+// they are discharged; towards callers it offers this contract, whose clauses are assumptions
+// until then and are listed as such in the evidence.
+//@ func (*Lexer).Lex
+//@   requires lexwf(lex)
+//@   assume-ensures result != nil && lexwf(lex)
+//@   trusted generated scanner machine (ragel)
